@@ -38,7 +38,7 @@ def PC.ok : PC → Prop
   | .mwStW c | .mwRcLd c | .mwEnqLd c | .mwEnqCas c _ | .mwRelLd c | .mwRelCas c _ _ => c.ok ∧ c.outc = .ok
   | .mwWaitLd c | .mwLd255 c => c.ok
   | .mwSem c | .mwPdRet c _ | .mwNotify c => c.inner
-  | .mwLd244 c | .mtLd c | .mtCasWW c _ => c.ok ∧ c.hl = false ∧ c.so ≠ .ok
+  | .mwLd244 c | .mtLd c | .mtCasWW c _ | .mtLdWk c _ => c.ok ∧ c.hl = false ∧ c.so ≠ .ok
   | .mtCasAcq c old | .mtLdW c old | .mtLdRc c old | .mtRmLd c old | .mtRmCas c old _ | .mtStW c old | .mtStRel c old _ =>
     c.ok ∧ c.hl = false ∧ c.so ≠ .ok ∧ noLock old
   | .mwRet c cit => c.ok ∧ (cit = false → c.outc ≠ .ok)
